@@ -29,9 +29,58 @@ pub fn all_subsets() -> Vec<u32> {
     v.into_iter().collect()
 }
 
+/// a converter at the edges of what a units file may say: fractions everywhere with the widest limits, ratios of 1e300
+/// and 1e-300 next to ordinary ones, a one-unit best list, a unit with an offset, names with blanks and capitals
+pub const EXTREME_UNITS: &str = r#"
+default_system = "imperial"
+[fractions]
+all = { enabled = true, accuracy = 1.0, max_denominator = 16, max_whole = 4000000000 }
+[fractions.unit]
+tsp = { max_whole = 0, max_denominator = 1 }
+g = { accuracy = 0.0 }
+[[quantity]]
+quantity = "volume"
+best = { metric = ["ml", "l"], imperial = ["tsp", "cup"] }
+[quantity.units]
+metric = [ { names = ["millilitre"], symbols = ["ml"], ratio = 1 }, { names = ["litre"], symbols = ["l", "L"], ratio = 1000 }, { names = ["big vat"], symbols = ["vat"], ratio = 1e300 } ]
+imperial = [ { names = ["teaspoon"], symbols = ["tsp"], ratio = 4.928921 }, { names = ["cup", "cups"], symbols = ["c"], ratio = 236.588236 }, { names = ["drop"], symbols = ["dr"], ratio = 1e-300 } ]
+[[quantity]]
+quantity = "mass"
+best = { metric = ["g"], imperial = ["oz", "lb"] }
+[quantity.units]
+metric = [ { names = ["gram", "grams"], symbols = ["g"], ratio = 1 }, { names = ["kilogram"], symbols = ["kg"], ratio = 1000 } ]
+imperial = [ { names = ["ounce"], symbols = ["oz"], ratio = 28.349523125 }, { names = ["pound"], symbols = ["lb"], ratio = 453.59237 } ]
+[[quantity]]
+quantity = "length"
+best = { metric = ["cm"], imperial = ["in"] }
+[quantity.units]
+metric = [ { names = ["centimetre"], symbols = ["cm"], ratio = 1 } ]
+imperial = [ { names = ["inch"], symbols = ["in"], ratio = 2.54 } ]
+[[quantity]]
+quantity = "temperature"
+best = { metric = ["C"], imperial = ["F"] }
+[quantity.units]
+metric = [ { names = ["celsius"], symbols = ["°C", "ºC", "C"], ratio = 1, difference = 273.15 } ]
+imperial = [ { names = ["fahrenheit"], symbols = ["°F", "ºF", "F"], ratio = 0.5555555555555556, difference = 459.67 } ]
+[[quantity]]
+quantity = "time"
+best = ["s", "min", "h", "d"]
+units = [ { names = ["second", "seconds"], symbols = ["s"], ratio = 1 }, { names = ["minute", "minutes"], symbols = ["min", "m"], ratio = 60 }, { names = ["hour", "hours"], symbols = ["h"], ratio = 3600 }, { names = ["day", "days"], symbols = ["d"], ratio = 86400 }, { names = ["aeon"], symbols = ["ae"], ratio = 1e300 } ]
+"#;
+
+pub fn extreme_converter() -> Converter {
+    static C: std::sync::OnceLock<Converter> = std::sync::OnceLock::new();
+    C.get_or_init(|| {
+        let f: cooklang::convert::units_file::UnitsFile = toml::from_str(EXTREME_UNITS).expect("extreme units");
+        Converter::builder().with_units_file(f).expect("add").finish().expect("extreme converter")
+    })
+    .clone()
+}
+
 pub fn converter(name: &str) -> Converter {
     match name {
         "e" | "empty" => Converter::empty(),
+        "x" | "extreme" => extreme_converter(),
         _ => Converter::bundled(),
     }
 }
